@@ -49,6 +49,9 @@ RESET_EXEMPT_OBS = {("IState", "_cache"): "opt-in cross-episode @cache, document
 def run(ck, an, tier):
     s1(ck, an)
     clock_readers(ck, an)
+    from rules import C08 as _c08
+    from sa.report import Renamed as _R8
+    _c08.s1(_R8(ck, "C08:"), an)      # the delayed-action queue is rebuilt at every reset: no decision of an earlier episode is replayed
     from rules import C15
     from sa.report import Renamed
     from rules import ledger
